@@ -13,6 +13,7 @@ mod c03;
 mod c04;
 mod c05;
 mod c06;
+mod c07;
 mod c10;
 mod c11;
 mod c12;
@@ -77,6 +78,7 @@ fn main() {
         "C04" => c04::run(&p, &mut rep),
         "C05" => c05::run(&p, &mut rep),
         "C06" => c06::run(&p, &mut rep),
+        "C07" => c07::run(&p, &mut rep),
         "C10" => c10::run(&p, &mut rep),
         "C11" => c11::run(&p, &mut rep),
         "C12" => c12::run(&p, &mut rep),
